@@ -801,8 +801,19 @@ pub struct CaseRun {
 	pub streams: Vec<Vec<String>>,
 	/// connection state (closed?) at the end of the previous line
 	pub was_closed: Vec<bool>,
+	/// handler tasks that await `pending.accept()` and then send (`ss parkacceptsend`)
+	pub accept_tasks: Vec<AcceptTask>,
 	/// sends left parked on a full queue (`ss parksend`), in parking order: (sub, payload, task)
 	pub parked: Vec<(usize, u64, tokio::task::JoinHandle<bool>)>,
+}
+
+pub struct AcceptTask {
+	pub k: usize,
+	pub p: u64,
+	/// set by the task as soon as `accept()` has returned
+	pub accepted: Arc<Mutex<Option<bool>>>,
+	pub reported: bool,
+	pub handle: tokio::task::JoinHandle<Option<(SubscriptionSink, bool)>>,
 }
 
 pub struct LineResult {
@@ -859,7 +870,7 @@ impl CaseRun {
 		let (eager, lowlevel, cap, qcap, nconns) = parse_header(header)?;
 		let env = Env::new(eager, lowlevel, nconns, cap, qcap).await;
 		let book = Book { subs: vec![], peer_closed: vec![false; nconns], stopped: false, cap };
-		Some(CaseRun { env, subs: vec![], book, eager, nconns, check_c06, check_c04, streams: vec![vec![]; nconns], was_closed: vec![false; nconns], parked: vec![] })
+		Some(CaseRun { env, subs: vec![], book, eager, nconns, check_c06, check_c04, streams: vec![vec![]; nconns], was_closed: vec![false; nconns], accept_tasks: vec![], parked: vec![] })
 	}
 
 	fn conn_serving(&self, c: usize) -> bool {
@@ -932,6 +943,52 @@ impl CaseRun {
 			done.push(format!("{k}:{p}:{}", if ok { "ok" } else { "err" }));
 		}
 		self.parked = still;
+		// handler tasks blocked in `pending.accept().await` (then sending)
+		let mut still = vec![];
+		let tasks: Vec<_> = self.accept_tasks.drain(..).collect();
+		for mut t in tasks {
+			let acc = *t.accepted.lock().unwrap();
+			if let (Some(a), false) = (acc, t.reported) {
+				t.reported = true;
+				let k = t.k;
+				if a {
+					// the newer subscription takes over an entry that is still registered under its key
+					let (kc, km, ks) = (self.book.subs[k].conn, self.book.subs[k].meth, self.book.subs[k].sid.clone());
+					for (j, b) in self.book.subs.iter_mut().enumerate() {
+						if j != k && b.conn == kc && b.meth == km && b.sid == ks && b.registered() {
+							b.displaced = true;
+						}
+					}
+					self.book.subs[k].phase = BPhase::Accepted;
+					self.book.subs[k].clones = 1;
+				} else {
+					self.book.subs[k].phase = BPhase::AcceptFailed;
+				}
+				done.push(format!("{k}:a:{}", if a { "ok" } else { "err" }));
+			}
+			if !t.handle.is_finished() {
+				still.push(t);
+				continue;
+			}
+			match t.handle.await {
+				Ok(Some((sink, ok))) => {
+					if ok {
+						self.book.subs[t.k].sent_ok.push(t.p);
+					}
+					// the task hands its sink to the script
+					self.subs[t.k].sinks.push(sink);
+					done.push(format!("{}:{}:{}", t.k, t.p, if ok { "ok" } else { "err" }));
+				}
+				Ok(None) => {}
+				Err(e) => {
+					if e.is_panic() {
+						oracle_merge(orc, Err(format!("the handler task of sub {} panicked in accept/send", self.book.subs[t.k].sid)));
+					}
+				}
+			}
+		}
+		self.accept_tasks = still;
+		done.sort();
 		done
 	}
 
@@ -1330,6 +1387,38 @@ impl CaseRun {
 					self.parked.push((k, p, h));
 					barrier().await;
 					"parked".into()
+				}
+			}
+			// a handler task: `let sink = pending.accept().await?; sink.send(p).await` — accept() itself is
+			// called whatever the state of the queue (it waits there while the queue is full)
+			"parkacceptsend" => {
+				let (Some(k), Some(p), Some(how)) = (num(2), num(3), w.get(4).copied().filter(|h| send_how(h))) else { return bad("bad-op") };
+				let k = k as usize;
+				if k >= self.subs.len() || self.subs[k].pending.is_none() {
+					"bad".into()
+				} else {
+					let pending = self.subs[k].pending.take().unwrap();
+					let meth = self.subs[k].meth;
+					let accepted = Arc::new(Mutex::new(None));
+					let flag = accepted.clone();
+					let complete = how.ends_with('c');
+					let handle = tokio::spawn(async move {
+						match pending.accept().await {
+							Err(_) => {
+								*flag.lock().unwrap() = Some(false);
+								None
+							}
+							Ok(sink) => {
+								*flag.lock().unwrap() = Some(true);
+								let msg = if complete { SubscriptionMessage::new(NOTIF_NAMES[meth], sink.subscription_id(), &p).unwrap() } else { data_msg(p) };
+								let ok = sink.send(msg).await.is_ok();
+								Some((sink, ok))
+							}
+						}
+					});
+					self.accept_tasks.push(AcceptTask { k, p, accepted, reported: false, handle });
+					barrier().await;
+					"started".into()
 				}
 			}
 			// `sink.closed().await`: resolves exactly when the sink reports closed
@@ -1774,6 +1863,8 @@ pub fn gen_line(rng: &mut Rng, run: &CaseRun, g: &mut Gen, pf: &Profile) -> Stri
 			opts.push((pf.w_burst, format!("ss acceptsend {k} PAY {}", pick_how(rng))));
 			opts.push((2, format!("ss reject {k} {}", *rng.pick(&[-32000i32, -1, 7, -32602, 2, 1, -32001]))));
 			opts.push((1, format!("ss droppending {k}")));
+			// accept() called whatever the queue looks like, first send right behind it
+			opts.push((if run.eager { 1 } else { pf.w_accept / 2 + 1 }, format!("ss parkacceptsend {k} PAY {}", *rng.pick(&["sn", "sc"]))));
 			opts.push((1, format!("ss ident {k}")));
 		}
 		if !s.sinks.is_empty() {
@@ -1936,7 +2027,7 @@ fn count_axes(out: &mut Out, line: &str, res: &str) {
 				out.count(&format!("axis.unsub-id-escape-style.{style}{}", if needs { ".id-requires-escapes" } else if !t.is_ascii() { ".non-ascii" } else { "" }));
 			}
 		}
-		"send" | "acceptsend" | "burst" | "parksend" => {
+		"send" | "acceptsend" | "burst" | "parksend" | "parkacceptsend" => {
 			if let Some(h) = w.last() {
 				out.count(&format!("axis.send-how.{h}.{}", if head.contains("ok") { "ok" } else if head.contains("err") { "err" } else { "other" }));
 			}
@@ -1948,6 +2039,9 @@ fn count_axes(out: &mut Out, line: &str, res: &str) {
 			out.count(&format!("axis.ret.{}", w.get(3).map(|r| r.split(':').next().unwrap_or("")).unwrap_or("")));
 		}
 		_ => {}
+	}
+	if res.contains(":a:ok") || res.contains(":a:err") {
+		out.count(if w[1] == "parkacceptsend" { "axis.task-accept.completed-at-once" } else { "axis.task-accept.completed-after-waiting-on-full-queue" });
 	}
 	if res.contains(";done=") {
 		out.count(if res.contains(":ok") { "axis.parked-send.completed-ok" } else { "axis.parked-send.failed-on-close" });
